@@ -39,6 +39,7 @@ type c04case struct {
 	V9          bool    `json:"v9"`          // consensus config without upgrades 10-12
 	EmptyEvery  int     `json:"emptyEvery"`  // an empty block instead of a proposal with probability 1/k (0 = never)
 	Participate float64 `json:"participate"` // ceremony participation (negative: nobody, the validation fails)
+	FailEpochs  int     `json:"failEpochs"`  // nobody takes part in the first k ceremonies (failed validations), then Participate applies
 	Seasoned    bool    `json:"seasoned"`    // genesis identities have a validation history (they survive their first ceremonies)
 	Contracts   bool    `json:"contracts"`   // real embedded contracts (TimeLock, Multisig: deploy, fund, transfers incl. to itself, terminate)
 }
@@ -151,8 +152,19 @@ func c04run(c *hx.Ctx, cs c04case) error {
 		c.Fail(sig, detail, rc)
 	}
 	maxExcess := c.Rep.Coverage["max_epoch_payouts_minus_pool"]
+	// the epoch start the ORACLE uses: the height of the last validation-finishing block it saw itself (not the state's
+	// EpochBlock / PrevEpochBlocks, which the code under test maintains)
+	lastVF := n.App.State.EpochBlock()
+	normalPart, normalAlways := h.O.Participate, h.O.Always
 	for b := 1; b <= cs.Blocks; b++ {
 		cur = b
+		if cs.FailEpochs > 0 {
+			if int(n.App.State.Epoch()) < cs.FailEpochs {
+				h.O.Participate, h.O.Always = -1, map[int]bool{}
+			} else {
+				h.O.Participate, h.O.Always = normalPart, normalAlways
+			}
+		}
 		h.OfferTxs(b)
 		if r.Intn(3) == 0 {
 			pr.OfferConflicts(b)
@@ -163,7 +175,7 @@ func c04run(c *hx.Ctx, cs c04case) error {
 			break
 		}
 		before := n.Ledger()
-		epochBlock := n.App.State.EpochBlock()
+		epochBlock := lastVF
 		var blk *types.Block
 		kind := "proposed"
 		if cs.EmptyEvery > 0 && b > 2 && r.Intn(cs.EmptyEvery) == 0 {
@@ -264,6 +276,9 @@ func c04run(c *hx.Ctx, cs c04case) error {
 			epochLen = fmt.Sprint(el)
 			bound.Add(bound, new(big.Int).Mul(full, new(big.Int).SetUint64(el)))
 		}
+		if vf {
+			lastVF = blk.Height()
+		}
 		growth := new(big.Int).Sub(after.Total, before.Total)
 		c.Line(fmt.Sprintf("blk %s %s %s %s %d %s %s %s", kind, before.Total, afterTxs, after.Total, len(after.Negative), totalFee, totalTips, epochLen),
 			"ok growth="+growth.String())
@@ -297,7 +312,7 @@ func c04run(c *hx.Ctx, cs c04case) error {
 		if growth.Cmp(bound) > 0 {
 			// on a validation-finishing block an excess within float32 rounding of the category totals is the known finding
 			sig := "C04:growth-exceeds-bound:" + label
-			if vf && coll.pool != nil && new(big.Int).Sub(growth, bound).Cmp(c04roundingSlack(coll.pool, 4096)) <= 0 {
+			if vf && coll.pool != nil && new(big.Int).Sub(growth, bound).Cmp(c04roundingSlack(bound, 4096)) <= 0 {
 				sig = "C04:epoch-payouts-exceed-pool"
 			}
 			fail(sig, fmt.Sprintf("block %d: total %s -> %s, growth %s > bound %s", blk.Height(), before.Total, after.Total, growth, bound))
@@ -313,7 +328,8 @@ func c04run(c *hx.Ctx, cs c04case) error {
 		}
 		if coll.pool != nil {
 			c.Hit("epoch-rewards-paid")
-			ex := new(big.Int).Sub(coll.epochMinted, coll.pool)
+			obsPool := new(big.Int).Mul(full, new(big.Int).SetUint64(blk.Height()-epochBlock)) // pool of the OBSERVED epoch length
+			ex := new(big.Int).Sub(coll.epochMinted, obsPool)
 			if maxExcess == nil || ex.Cmp(maxExcess.(*big.Int)) > 0 {
 				maxExcess = ex
 			}
@@ -327,19 +343,23 @@ func c04run(c *hx.Ctx, cs c04case) error {
 						adds += 2 * len(iv.SuccessfulInvites)
 					}
 				}
-				detail := fmt.Sprintf("block %d: epoch payouts %s > pool %s (%d float32 additions)", blk.Height(), coll.epochMinted, coll.pool, adds)
-				if ex.Cmp(c04roundingSlack(coll.pool, adds)) <= 0 {
+				detail := fmt.Sprintf("block %d: epoch payouts %s > pool %s of the observed epoch length %d (previous validation-finishing block seen at %d; %d float32 additions)", blk.Height(), coll.epochMinted, obsPool, blk.Height()-epochBlock, epochBlock, adds)
+				if ex.Cmp(c04roundingSlack(obsPool, adds)) <= 0 {
 					c.Hit("known-finding:epoch-payouts-exceed-pool")
 					if c04known < 3 {
 						c04known++
 						fail("C04:epoch-payouts-exceed-pool", detail)
 					}
 				} else {
-					fail("C04:growth-exceeds-bound:epoch", detail)
+					fail("C04:epoch-payouts-exceed-pool-for-observed-epoch-length", detail)
 				}
 			}
-			if want := new(big.Int).Mul(full, new(big.Int).SetUint64(blk.Height()-epochBlock)); vf && want.Cmp(coll.pool) != 0 {
-				fail("C04:epoch-pool-formula", fmt.Sprintf("block %d: pool %s, (BlockReward+FinalCommitteeReward)*%d = %s", blk.Height(), coll.pool, blk.Height()-epochBlock, want))
+			if vf && obsPool.Cmp(coll.pool) != 0 {
+				sig := "C04:epoch-pool-formula"
+				if coll.pool.Cmp(obsPool) > 0 {
+					sig = "C04:epoch-pool-exceeds-observed-epoch-length"
+				}
+				fail(sig, fmt.Sprintf("block %d: the code's reward pool is %s, (BlockReward+FinalCommitteeReward)*%d = %s for the epoch since the validation-finishing block seen at %d", blk.Height(), coll.pool, blk.Height()-epochBlock, obsPool, epochBlock))
 			}
 			for _, sr := range coll.results {
 				if len(sr.GoodAuthors) > 0 {
@@ -405,6 +425,9 @@ func init() {
 		nh := c.Scale(24, 400)
 		for i := 0; i < nh; i++ {
 			cs := c04case{Seed: c.Seed*1000 + int64(i), Blocks: 240, Users: 8 + i%4, V9: i%4 == 3, Participate: 0.75, Contracts: i%3 != 2, Seasoned: i%6 != 5}
+			if i%4 == 1 {
+				cs.FailEpochs = 1 + i%8/5 // a failed validation (nobody takes part), then successful ones
+			}
 			if i%2 == 1 {
 				cs.EmptyEvery = 6
 			}
